@@ -373,11 +373,14 @@ Section History.
 
   Lemma step_post c s : hist_post s (final (run_call sha name expected c s)).
   Proof.
-    unfold run_call. destruct (k_kind c); [apply install_step_post|].
-    destruct (download_cmd_frame sha (k_srv c) name expected (k_untar c) (k_attempts c) (k_force c) s) as [FI FL].
-    exists []. split; [exact FL|]. split; [intros ? ? []|]. split.
-    - intros I. left. unfold is_installed in *. rewrite <- FI. exact I.
-    - intros m _. rewrite FI. tauto.
+    unfold run_call.
+    assert (Q : forall sf, frame s sf -> hist_post s sf).
+    { intros sf [FI FL]. exists []. split; [exact FL|]. split; [intros ? ? []|]. split.
+      - intros I. left. unfold is_installed in *. rewrite <- FI. exact I.
+      - intros m _. rewrite FI. tauto. }
+    destruct (k_kind c); [apply install_step_post| |]; apply Q.
+    - exact (download_cmd_frame sha (k_srv c) name expected (k_untar c) (k_attempts c) (k_force c) s).
+    - apply keeps_frame. exact (prob_status_keeps sha (k_srv c) name expected (k_untar c) s).
   Qed.
 
   Lemma hist_post_trans a b c : hist_post a b -> hist_post b c -> hist_post a c.
@@ -400,6 +403,44 @@ Section History.
     - eapply hist_post_trans; [apply step_post|apply IH].
   Qed.
 End History.
+
+(* ---- histories during which the index is re-published: every call is judged against the checksum published
+   at the time of that call *)
+Section Republished.
+  Variable sha : bytes -> string.
+  Variable name : string.
+
+  (* [news] = the events of each call, in call order (each list most recent first, like the log) *)
+  Definition pub_post (cs : list (string * call)) (s0 sf : lstate) : Prop :=
+    exists news : list (list event),
+      Forall2 (fun (ec : string * call) new =>
+                 forall b m, In (EExtract b m) new -> sha b = fst ec /\ m = false) cs news /\
+      log sf = (List.concat (rev news) ++ log s0)%list /\
+      (is_installed name sf = true ->
+         is_installed name s0 = true \/
+         exists e c new b, In (e, c, new) (combine cs news) /\ In (EExtract b false) new /\ sha b = e) /\
+      (forall m, m <> name -> (In m (index sf) <-> In m (index s0))).
+
+  Lemma run_pub_post cs : forall s0, pub_post cs s0 (run_pub sha name cs s0).
+  Proof.
+    induction cs as [|[e c] cs IH]; intros s0; cbn [run_pub].
+    - exists []. split; [constructor|]. split; [reflexivity|]. split; [auto|tauto].
+    - destruct (step_post sha name e c s0) as [new [L1 [V1 [M1 O1]]]].
+      destruct (IH (final (run_call sha name e c s0))) as [news [F [L [M O]]]].
+      exists (new :: news). split; [constructor; [exact V1|exact F]|]. split.
+      + rewrite L, L1. cbn [rev]. rewrite List.concat_app. cbn [List.concat]. rewrite app_nil_r, app_assoc. reflexivity.
+      + split.
+        * intros I. destruct (M I) as [I1|[e' [c' [new' [b [Ic [Ib Sb]]]]]]].
+          -- destruct (M1 I1) as [I0|[b [Ib Sb]]]; [left; exact I0|].
+             right. exists e, c, new, b. split; [left; reflexivity|auto].
+          -- right. exists e', c', new', b. split; [right; exact Ic|auto].
+        * intros m N. rewrite (O m N). apply O1; exact N.
+  Qed.
+
+  (* with a constant publication this is the plain history *)
+  Lemma run_pub_const e cs : forall s, run_pub sha name (List.map (fun c => (e, c)) cs) s = run_calls sha name e cs s.
+  Proof. induction cs as [|c cs IH]; intros s; cbn; [reflexivity|apply IH]. Qed.
+End Republished.
 
 (* ---- an honest server leads to a verified installation from every prior state *)
 Section Honest.
